@@ -50,6 +50,7 @@ type StdinSpec struct {
 	Data        Blob   `json:"data,omitempty"` // for From == "data"
 	Plan        []int  `json:"plan,omitempty"` // chunk plan
 	EOFWithData bool   `json:"eof_with_data,omitempty"`
+	Redirect    bool   `json:"redirect,omitempty"` // stdin is a regular file (shell "<"), not a pipe
 }
 
 // ProcSpec is one simulated process.
@@ -85,8 +86,14 @@ func fsFromFiles(files []File, dirs []string) *simos.FS {
 	return fs
 }
 
+// IOCfg is the per-session shape of the simulated I/O.
+type IOCfg struct {
+	Sector    int // bytes per sector write
+	FileChunk int // max bytes per Read of an open regular file (0 = unlimited)
+}
+
 // runProc runs one process on fs (which it may modify).
-func runProc(fs *simos.FS, spec ProcSpec, sector int, prevStdout []byte) ProcResult {
+func runProc(fs *simos.FS, spec ProcSpec, io IOCfg, prevStdout []byte) ProcResult {
 	arg0 := spec.Arg0
 	if arg0 == "" {
 		arg0 = "jd"
@@ -95,11 +102,11 @@ func runProc(fs *simos.FS, spec ProcSpec, sector int, prevStdout []byte) ProcRes
 		Bin:    spec.Bin,
 		Argv:   append([]string{arg0}, spec.Argv...),
 		FS:     fs,
-		Sector: sector,
+		Sector: io.Sector, FileChunk: io.FileChunk,
 		Faults: append([]simos.Fault(nil), spec.Faults...),
 	}
 	if s := spec.Stdin; s != nil {
-		st := &simos.Stream{Plan: s.Plan, EOFWithData: s.EOFWithData}
+		st := &simos.Stream{Plan: s.Plan, EOFWithData: s.EOFWithData, Redirect: s.Redirect}
 		switch {
 		case s.From == "data":
 			st.Data = s.Data
